@@ -10,7 +10,7 @@ CLAIMS["C09"] = dict(
     text=("Decides, for every path/entry of the code that selects scoring parameters, which constant reaches which field "
           "under which test: override triples (guard, source, field) in aln_param_init, the full (sequence kind x type "
           "constant) table of both switches, the ordered --type dispatch chain evaluated on every documented word, the "
-          "option-table/case/field agreement and by-name argument positions down to aln_param_init, and the documented DNA "
+          "option-table/case/field agreement (a float option is parsed with a floating-point parser) and by-name argument positions down to aln_param_init, and the documented DNA "
           "numbers; and the way from aln_param to the kernels: make_profile_n stores the negated penalty of the matching kind "
           "into every gap column, set_gap_penalties_n copies each base column into the column of the same kind the kernels "
           "read on every path to its return, and update_n charges in every branch the penalty kinds it counts, weighted by the "
@@ -32,12 +32,13 @@ CLAIMS["C05"] = dict(
           "heap bounds (R05l), table dimensions by constant evaluation (R05f), resize_aln_mem sizes (R05n), infinite penalties "
           "rejected (R05o), gap-array zeroing from the old count to the new (R05s), single use of a va_list (R05t), no fclose "
           "of a possibly-NULL stream (R05u), fixed-size locals filled under a counter are large enough for the largest index the "
-          "counter reaches (R05w). Each rule has must-fire / must-stay-silent controls or a floor of confirmed instances."),
+          "counter reaches (R05w), the label copied into a Clustal/MSF line is not measured with strlen when the line was sized from a "
+          "capped strnlen (R05x = R15l). Each rule has must-fire / must-stay-silent controls or a floor of confirmed instances."),
     note=("Clauses only: termination, index safety inside the DP and bit-parallel kernels, integer overflow and malloc "
           "failure paths are NOT decided (goto-analyzer could not bound the kernels; DESIGN section 1). Assumes C-locale "
           "ctype semantics and 8-bit signed plain char."),
     technique="AST/CFG dataflow rules: byte-domain index evaluation, must-assign, error-status discipline, typestate on out-parameters, call-graph reachability",
-    design_ref="DESIGN.md section 3, C05 (R05a-R05w)")
+    design_ref="DESIGN.md section 3, C05 (R05a-R05x)")
 
 CLAIMS["C01"] = dict(
     text=("Decides four structural clauses that the anchors of the property name: (R01a) on every CFG path of kalign_run / "
@@ -94,11 +95,13 @@ CLAIMS["C06"] = dict(
           "makes a block line the next row is equivalent to 'first character is not a blank' for every byte value; "
           "kalign_write_msa's effect summary contains no store into the rows, names or gap counts it writes; every string "
           "write_msa_msf formats into a line is a literal, a sequence name, the strftime date or the base name from tlfilename, "
-          "so that no caller-supplied path can put the reader's '//' divider into the header."),
+          "so that no caller-supplied path can put the reader's '//' divider into the header; every path to a call of kalign_write_msa "
+          "runs something that can set ALN_STATUS_FINAL first (R06k: kalignfmt had none and could not write - F28); a reader that grows a "
+          "record keeps the gap counts already counted (R06l = R05s)."),
     note=("One clause family only: equality of the re-read alignment (block arithmetic at multiples of 60, name "
           "extraction over all names) is NOT decided - it needs the loop semantics over run-time widths."),
     technique="reader/writer token-set agreement from string literals, bounded-copy rule, prefix-comparison rule",
-    design_ref="DESIGN.md section 3, C06 (R06a-R06j)")
+    design_ref="DESIGN.md section 3, C06 (R06a-R06l)")
 
 CLAIMS["C15"] = dict(
     text=("Decides agreement inside write_msa_msf between header and body: the integer printed after 'MSF:' and every "
@@ -110,7 +113,9 @@ CLAIMS["C15"] = dict(
           "the checksum formula's weights and modulus, the line ordering keys, the retry of a header line that did not fit "
           "(size provably larger than needed), a precision on every %s of a name, the FINAL-status gate of the writers, and the "
           "label of a block row: the copy loop ends at strnlen/strlen of the name or at its NUL byte only (exit tests "
-          "evaluated for all 256 byte values), so it is the string the header lines print."),
+          "evaluated for all 256 byte values), so it is the string the header lines print, and it is measured no more generously than "
+          "the strnlen(name, cap) the line was sized from; neither GCG checksum function accumulates under an OpenMP reduction "
+          "without reducing the combined value again."),
     note=("Wrapping at 60, presence of every sequence in every block and the numerical GCG formula are NOT decided; a "
           "restructured emission loop yields exit 2 (no verdict), not a pass."),
     technique="reaching-definition agreement between header fields and emission bound; two-state evaluation of the type predicate",
@@ -122,8 +127,8 @@ CLAIMS["C02"] = dict(
           "task no path reaches the function exit, a call or a shared store before a taskwait; every pair of tasks that can "
           "be active together has disjoint field-level effect summaries on the objects they share (forward writes only "
           "m->f, backward only m->b, split2 only its own res[k]); recursive sibling merges write shared arrays only at "
-          "their own node ids and use a private aln_mem; the parallel for stores only to dm[i][j]/private data and has no "
-          "reduction/atomic; no omp_get_thread_num/num_threads/wtime; the thread count reaches only omp_set_num_threads, "
+          "their own node ids and use a private aln_mem; the parallel for stores only to dm[i][j]/private data, reads dm only at its own element (no loop-carried "
+          "read) and has no reduction/atomic; no omp_get_thread_num/num_threads/wtime; the thread count reaches only omp_set_num_threads, "
           "the clamp, run_parallel and if() clauses; parallel and serial Hirschberg steps dispatch identically; thorough: "
           "OpenMP and non-OpenMP configurations make the same calls in every function."),
     note=("Assumes the two children of a guide-tree node are disjoint subtrees (run-time invariant of create_tasks), IEEE "
@@ -140,11 +145,12 @@ CLAIMS["C10"] = dict(
           "sip[c] from all members of both children and nsip[c] as the sum; the two new-gap vectors never overlap and are int "
           "wide; the accumulated counts are rendered for every sequence with slot j in front of residue j; every omp task of the "
           "merge recursion (child merges, gap weaving) is joined before the spawning function calls, stores shared data or "
-          "returns, so a parent never merges a group whose own merge is still running."),
+          "returns, so a parent never merges a group whose own merge is still running; the cursor into the new-gap vector is "
+          "advanced from the count as it was before the merge (R10h)."),
     note=("Does not decide that update_gaps distributes the vector over the right slots (index arithmetic over run-time "
           "arrays), nor the path encoding produced by the DP kernels."),
     technique="interprocedural effect summary (who-may-write), store-form rule, exact affine loop ranges, argument agreement",
-    design_ref="DESIGN.md section 3, C10 (R10a-R10g)")
+    design_ref="DESIGN.md section 3, C10 (R10a-R10h)")
 
 CLAIMS["C07"] = dict(
     text=("Decides the structural necessary conditions of the meet-in-the-middle recursion: the three meetup functions "
